@@ -4,7 +4,7 @@ import json
 from lib import vlib
 from lib.vlib import Check, tlc, tlc_parallel, vh_json_lines
 
-DEVS = ["FirstUser", "ServerKeyOnly", "ReplyServerKey", "AcceptWrong"]
+DEVS = ["FirstUser", "ServerKeyOnly", "ReplyServerKey", "AcceptWrong", "ShapeAccepted", "SessionCipherCached"]
 
 
 def run(tier):
@@ -30,12 +30,16 @@ def run(tier):
         sc = o["scenario"]
         per[sc["cfg"]] = per.get(sc["cfg"], 0) + 1
         if not o["ok"]:
-            c.violation("%s: peer with server-level secret '%s', user-level secret '%s', %s message (%s): %s [%s]" %
-                        (sc["cfg"], sc["sk"], sc["uk"], sc["form"], o["variant"], "; ".join(o["why"]), o["obs"]["detail"]), o)
+            if str(o["obs"].get("detail", "")).startswith("TOOL:"):
+                raise vlib.ToolError(o["obs"]["detail"])
+            c.violation("%s: peer with server-level secret '%s', user-level secret '%s', naming %s user%s, %s message (%s): %s [%s]" %
+                        (sc["cfg"], sc["sk"], sc["uk"], "its own" if sc.get("claim") != "other" else "the OTHER registered",
+                         " after a valid datagram of the same session" if sc.get("prior") else "", sc["form"], o["variant"], "; ".join(o["why"]), o["obs"]["detail"]), o)
     c.add("credential_cases_replayed", len(rows))
     c.cov["cases_per_configuration"] = per
     c.assumptions += [
-        "attacker messages are built by the reference codec from the keys the attacker is said to know (wrong key, one bit different, another registered user's, unregistered, none = another protocol's valid handshake or random bytes)",
+        "attacker messages are built by the reference codec from the keys the attacker is said to know (wrong key, one bit different, another registered user's, unregistered, none = another protocol's valid handshake or random bytes, shape = a credential field of the right length that holds no key: 56 non-hexadecimal characters for Trojan in seven fillings, an all-zero key / empty password for Shadowsocks)",
+        "a message that names the other registered user (its identity header copied from that user's traffic) while sealed under the sender's own key, alone and right after a valid datagram of the same session (one server codec for both, as in the datagram loop)",
         "the key an answer is sealed under is identified by opening the real server's output with the reference opener under each candidate key",
         "the server's UDP association table (which user a later reply is sealed for) is a server-loop matter and is exercised end to end under C02/C09",
     ]
